@@ -627,6 +627,8 @@ class StmtMixin(object):
                 wset.add(('F', o.oid, node.attr))
                 havoc_list.append((o, node.attr))
                 v = o.fields.get(node.attr)
+                if v is None and isinstance(o, Obj) and o.symbolic:
+                    v = self.get_field(o, node.attr)          # materialise a lazily symbolic field named in also_modifies
                 if isinstance(v, Arr):
                     wset.add(('A', arrays.root_of(v).oid))
                     arrs.append(arrays.root_of(v))
